@@ -1648,7 +1648,7 @@ pub trait TVLFunction: Function {
     }
     /// Get the "unknown" function `U`
     fn u<'id>(manager: &Self::Manager<'id>) -> Self {
-        Self::from_edge(manager, Self::t_edge(manager))
+        Self::from_edge(manager, Self::u_edge(manager))
     }
 
     /// Get the cofactors `(f_true, f_unknown, f_false)` of `self`
